@@ -826,5 +826,5 @@ func roundtripPart() mc.Part {
 
 // Parts of the C20 check.
 func Parts() []mc.Part {
-	return []mc.Part{inventoryPart(), descriptorsPart(), roundtripPart(), msgSignersPart()}
+	return []mc.Part{inventoryPart(), descriptorsPart(), roundtripPart(), msgSignersPart(), routesPart()}
 }
